@@ -73,6 +73,9 @@ def _expected(sel, w1, w2, s1, s2, i):
             r = []
     elif sel == 11:  # slice of a port reference whose port is tied to a bundle member (resolved through a bundle reference)
         r, c = _stage(X, *s1); cls.append(c)
+    elif sel == 12:  # such a reference as a PART of a concatenation, between plain parts
+        r0, c0 = _istage(Y, i); cls.append(c0)
+        r = r0 + X + Y
     elif sel == 10:  # a strided / reversed slice between plain parts and a nested concat
         r, c = _stage(X, *s1); cls.append(c)
         r0, c0 = _istage(X, i); cls.append(c0)
@@ -123,6 +126,14 @@ def _build(sel, w1, w2, s1, s2, i):
         top.i0 = thru({})(a=top.bb.m)
         top.i1 = thru({})(a=top.bb.m)  # (observation point for the bits of bb.m)
         e = sl(top.i0.a, s1)
+    elif sel == 12:
+        B = h.Bundle(name="B")
+        B.add(h.Signal(name="m", width=w1))
+        top.bb = h.BundleInstance(of=B)
+        thru = h.ExternalModule(name="Thru", port_list=[h.Port(name="a", width=w1)], paramtype=dict)
+        top.i0 = thru({})(a=top.bb.m)
+        top.i1 = thru({})(a=top.bb.m)
+        e = h.Concat(y[i], top.i0.a, y)
     elif sel == 9:
         e = sl(h.Concat(h.Concat(x, y), x[i]), s1)
     elif sel == 10:
@@ -164,7 +175,7 @@ def _run(sel, w1, w2, a1, b1, c1, a2, b2, c2, i):
         if int(n) != len(want):
             return False
         for j, (sig, k) in enumerate(want):
-            if sel in (8, 11):
+            if sel in (8, 11) or (sel == 12 and sig == "x"):
                 # bits of bb.m are observed through i1.a (same bit order)
                 if (("i1",), "a", k) not in cl[(("u",), "a", j)]:
                     return False
@@ -227,6 +238,7 @@ def _parts(sels, steps1):
                             ("s6p2", "sel == 6 and w1 == 3 and c1 == 2 and a1 == 99 and b1 == 99 and -2 <= i <= 1"),
                             ("s10", "sel == 10 and w1 == 3 and (c1 == -1 or c1 == 2) and a1 == 99 and b1 == 99 and -1 <= i <= 0"),
                             ("s3m2", "sel == 3 and w1 == 3 and i == 0 and c1 == -2 and a1 == 99 and b1 == 99 and c2 == 1 and a2 == 1 and b2 == 99"),
+                            ("s12", "sel == 12 and c1 == 1 and a1 == 99 and b1 == 99 and -2 <= i <= 1"),
                             ("s11", "sel == 11 and w1 == 3 and i == 0 and (c1 == -1 or c1 == 1 or c1 == -2) and (-3 <= a1 <= 3 or a1 == 99) and (b1 == 99 or b1 == 0 or b1 == 1)")]},
              "thorough": {"timeout": 600, "pre": ["a2 == 0 and b2 == 0 and c2 == 1 or sel == 1 or sel == 3", "i == 0 or sel >= 4"],
                           "parts": _BYW(
